@@ -31,13 +31,13 @@ PROPS = {
     },
     "C17": {
         "pkg": "handlers", "level": "exploration",
-        "quick": {"stages": [st("^TestC17", 4000)]},
-        "thorough": {"stages": [st("^TestC17", 150000, shards=16, timeout=3000)]},
+        "quick": {"stages": [st("^TestC17(Stacks|NIP11)", 4000), st("^TestC17ClockAcrossSessions", 1)]},
+        "thorough": {"stages": [st("^TestC17(Stacks|NIP11)", 150000, shards=16, timeout=3000), st("^TestC17ClockAcrossSessions", 1)]},
     },
     "C18": {
         "pkg": "handlers", "level": "exploration",
-        "quick": {"stages": [st("^TestC18", 3000)]},
-        "thorough": {"stages": [st("^TestC18", 100000, shards=12, timeout=3000), st("^TestC18", 10000, shards=4, race=True, timeout=3000)]},
+        "quick": {"stages": [st("^TestC18Stateful", 3000), st("^TestC18Soak", 500, shards=5)]},
+        "thorough": {"stages": [st("^TestC18Stateful", 100000, shards=12, timeout=3000), st("^TestC18Stateful", 10000, shards=4, race=True, timeout=3000), st("^TestC18Soak", 20000, shards=8, timeout=3000)]},
     },
     "C19": {
         "pkg": "handlers", "level": "exploration",
